@@ -1,4 +1,4 @@
-import SJ.Proofs.MachineSimND
+import SJ.Proofs.MachineSimWalk
 set_option linter.unusedVariables false
 set_option linter.unusedSimpArgs false
 /-
@@ -238,5 +238,18 @@ theorem nd_rejects_env (E : Env) (hnd : E.nd = true) (OW : OutsideWalk E)
         exfalso
         obtain ⟨_, h2, _⟩ := (E.SF.stage1_iff idx).mp hs1
         omega
+
+theorem parseMsgND_accepts (SF : ∀ nd msg, ScanFacts nd msg) (STR : StrFacts) (RF : RoundsFacts)
+    (cfg : Cfg) (msg : Bytes) (hsz : SizeOK msg) (ht : Trimmed msg)
+    (vs : List Spec.JVal) (h : Spec.ndText msg.toList = .accept (.arr vs)) :
+    ∃ idx m' g m, stage1 true msg = some idx ∧
+      runMG cfg msg M.init {} (pairsOf (rounds msg idx)) = some (m', g) ∧ m'.finish = some m ∧
+      parseMsg cfg true msg = some m ∧ g.roots.map erase = vs.map ofSpec :=
+  nd_accepts_env (mkEnv SF STR RF cfg true msg hsz) rfl (outsideWalk _) rfl ht vs h
+
+theorem parseMsgND_rejects (SF : ∀ nd msg, ScanFacts nd msg) (STR : StrFacts) (RF : RoundsFacts)
+    (cfg : Cfg) (msg : Bytes) (hsz : SizeOK msg) (ht : Trimmed msg)
+    (h : Spec.ndText msg.toList = .reject) : parseMsg cfg true msg = none :=
+  nd_rejects_env (mkEnv SF STR RF cfg true msg hsz) rfl (outsideWalk _) rfl ht h
 
 end SJ.ParseSpec
